@@ -4,6 +4,7 @@ from anchors import AnchorError
 from facts import callee_of, op_local, op_place, last_seg, strip_generics
 from util import calls_to_fn, calls_named, has_field, has_call, stores_to_field, aggregates_of, macro_of
 import c02
+import commit
 
 ONDISK = ('Page', 'Meta', 'OldMeta', 'BucketMeta')
 HANDLE_TYS = ('&page::Page', '&meta::Meta', '&meta::OldMeta', '&mut page::Page', '&mut meta::Meta')
@@ -418,6 +419,65 @@ def _resealed(fn, b2, s2, seals):
     return not any(not fn.succ(x) for x in reach)
 
 
+def _subst(e, args):
+    if not isinstance(e, tuple):
+        return e
+    if e[0] == 'arg' and 1 <= e[1] <= len(args):
+        return args[e[1] - 1]
+    return tuple(_subst(x, args) if isinstance(x, tuple) else ([_subst(y, args) for y in x] if isinstance(x, list) else x) for x in e)
+
+
+def _buffer_len(e, depth=0, ctx=None):
+    """length expression of a byte buffer given the expression tree of the slice handed to write: vec![x; N].as_slice() -> N; None if it cannot be told"""
+    if depth > 8 or not isinstance(e, tuple):
+        return None
+    # the buffer comes out of a crate-local helper (`build_header(..).1`): look at what the helper returns, with its parameters replaced by the arguments
+    if ctx is not None:
+        call, fields = (e[1], e[2]) if e[0] == 'field' and isinstance(e[1], tuple) and e[1][0] == 'call' else ((e, ()) if e[0] == 'call' else (None, ()))
+        g = ctx.facts.by_path.get(call[1]) if call else None
+        if g is not None:
+            pr = [{'k': 'field', 'i': int(f), 'name': int(f)} if str(f).isdigit() else {'k': 'field', 'name': f} for f in fields]
+            inner = ctx.du(g).sym_place({'l': 0, 'pr': pr})
+            return _buffer_len(_subst(inner, call[2]), depth + 1, ctx)
+    if e[0] == 'call':
+        nm = last_seg(strip_generics(e[1]))
+        if nm == 'from_elem' and len(e[2]) == 2:
+            return e[2][1]
+        if nm in ('as_slice', 'as_mut_slice', 'deref', 'deref_mut', 'as_ref', 'as_mut', 'borrow', 'borrow_mut', 'into_boxed_slice', 'to_vec', 'clone') and e[2]:
+            return _buffer_len(e[2][0], depth + 1, ctx)
+    if e[0] == 'ref' and len(e) > 1:
+        return _buffer_len(e[1], depth + 1, ctx)
+    return None
+
+
+def header_extent(ctx, rule='C12.header-extent'):
+    """the header write covers exactly one page: the two header pages are adjacent, so a longer write reaches into the other header (or the first data page) and a
+    torn one damages both; the length of the written buffer must be the page size itself"""
+    res = []
+    T = commit.commit_trace(ctx)
+    H = [e for e in T.events('W') if e.get('sub') == 'H' and not e.get('summary')]
+    if not H:
+        return [floor(rule, 'header writes in the commit trace', 0, 1)]
+    import c16
+    for h in H:
+        n = T.nodes[h['node']]
+        fn = n.fn
+        t = fn.term(n.bb)
+        e = ctx.du(fn).sym(t['args'][1]) if len(t['args']) > 1 else ('?',)
+        ln = _buffer_len(e, ctx=ctx)
+        if ln is None:
+            res.append(unresolved(rule, 'length of the header buffer written at %s (%s)' % (fn.loc(n.bb), c16._fmt(e)[:120])))
+            continue
+        is_ps = (ln[0] == 'field' and ln[2] and ln[2][-1] == 'pagesize') or (ln[0] == 'arg' and fn.local_name(ln[1]) in ('pagesize', 'page_size'))
+        if is_ps:
+            res.append(ok(rule, 'the header buffer written at %s is exactly one page long (%s)' % (fn.loc(n.bb), c16._fmt(ln)), sites=1))
+        else:
+            res.append(bad(rule, '%s | header write is not one page long' % fn.qual,
+                           'the buffer written as the header at %s has length `%s`, not the page size: for a page size it does not equal, the write runs past the header page into '
+                           'its neighbour -- the other header -- so one commit can damage both' % (fn.loc(n.bb), c16._fmt(ln)[:160]), where=fn.loc(n.bb)))
+    return res
+
+
 def run(ctx, tier):
     results = []
     results += checksum_total(ctx)
@@ -425,6 +485,7 @@ def run(ctx, tier):
     results += select_total(ctx)
     results += seal_last(ctx)
     results += kind_exact(ctx)
+    results += header_extent(ctx)
     results += c02.alternate_rule(ctx, rule='C12.alternate')
     results += c02.cow_free_set(ctx, rule='C12.fallback-kept')
     results += c02.pending_key(ctx, rule='C12.fallback-kept.key')
